@@ -61,7 +61,7 @@ def ob_call(report):
             if r.tag == 'panic':
                 # documented invariant: every id the matcher knows has a route (maintained by Router::route)
                 tags = ' '.join(str(t) for t in r.path.tags)
-                if 'expect' in tags and ms and any('Not(has<router.routes>' in str(z3.simplify(c)) for c in r.pc):
+                if ms and any('Not(has<router.routes>' in str(z3.simplify(c)) for c in r.pc):      # `.expect(..)` or `let .. else { panic!(..) }`: a matched id without a service (bookkeeping invariant of route()/merge())
                     seen.add('bookkeeping-expect')
                     continue
                 return viol(ob, [ex], f'Router::call can panic on some route string / table: {r.path.tags}', 'call-panic', path_summary(r), len(res))
